@@ -117,9 +117,7 @@ def run_ep(expr: str, v: str, use_doc: bool):
     except ElementPathError as e:
         code = (getattr(e, 'code', None) or '?').split(':')[-1]
         return ('err', code)
-    except RecursionError:
-        raise
-    except Exception as e:      # anything else escaping elementpath is itself a discrepancy
+    except Exception as e:      # anything else escaping elementpath (RecursionError too) is itself a discrepancy
         return ('escape', e)
     if not isinstance(r, list):
         r = [r]
@@ -287,7 +285,7 @@ def _closed_subexprs(ast):
         if t in ('map', 'filter'):
             return free(n[1], bound, infocus) or free(n[2], bound, True)
         if t == 'inline':
-            return free(n[2], set(bound) | set(n[1]), False)
+            return free(n[2], set(bound) | {p if isinstance(p, str) else p[0] for p in n[1]}, False)
         kids = n[2] if t in ('call', 'dyn') and isinstance(n[2], list) else []
         if t == 'call':
             return any(free(a, bound, infocus) for a in n[2])
@@ -336,7 +334,6 @@ def judge_one(ast, v, check, localize=True):
     root = ast[0]
     rootname = construct_name(ast)
     # ---- reference
-    ref_err = None
     order_dep_root = root == 'call' and ast[1] in ('distinct-values', 'unordered')
     try:
         if order_dep_root:
@@ -376,7 +373,6 @@ def judge_one(ast, v, check, localize=True):
         info['skipped'] = 'budget:' + str(e).split(':')[0][:30]
         return [], info
     except XPError as e:
-        ref_err = e
         at_root = getattr(e, 'node', None) is ast
         mandatory = at_root and root not in _LAZY_ROOTS
         exp = ('err', e.code, mandatory)
@@ -495,41 +491,13 @@ def judge_expr(case, rec: Recorder | None = None, check='nested') -> list[Disc]:
 
 
 # --------------------------------------------------------------------------
-# direct sub-check: one environment, the whole function list
-# --------------------------------------------------------------------------
-def judge_direct_batch(case, rec: Recorder | None = None) -> list[Disc]:
-    discs = []
-    for ast in case['asts']:
-        ds = judge_expr({'v': case['v'], 'ast': ast}, rec, 'direct')
-        if rec is not None:
-            rec.discs_of('direct', {'v': case['v'], 'ast': ast}, ds)
-        discs.extend(ds)
-    return discs
-
-
-def judge_direct(case, rec=None):
-    if 'asts' in case:
-        return judge_direct_batch(case, None)
-    return judge_expr(case, rec, 'direct')
-
-
-# --------------------------------------------------------------------------
-# nested sub-check
+# batches: one hypothesis example carries several expressions (amortises the per-example overhead)
 # --------------------------------------------------------------------------
 @st.composite
 def nested_batch(draw):
     v = draw(st.sampled_from(['31', '31', '31', '30', '20']))
     n = 6
     return {'v': v, 'asts': [draw(c08_gen.nested_program(v)) for _ in range(n)]}
-
-
-def judge_nested(case, rec=None):
-    if 'asts' in case:
-        out = []
-        for ast in case['asts']:
-            out.extend(judge_expr({'v': case['v'], 'ast': ast}, None, 'nested'))
-        return out
-    return judge_expr(case, rec, 'nested')
 
 
 # --------------------------------------------------------------------------
@@ -707,7 +675,7 @@ def selftest():
 def jobs(tier, seed):
     q = tier == 'quick'
     out = []
-    plan = [('direct', 4, 160 if q else 2500), ('nested', 8, 330 if q else 5000), ('equiv', 4, 1500 if q else 25000)]
+    plan = [('direct', 4, 280 if q else 3500), ('nested', 8, 600 if q else 7500), ('equiv', 4, 2800 if q else 35000)]
     for name, shards, n in plan:
         for i in range(shards):
             out.append({'check': name, 'shard': i, 'n': n, 'seed': derive_seed(seed, 'C08', name, i)})
